@@ -72,8 +72,19 @@ pub fn decompress<R>(typ: CompressionType, mut data: R, out: &mut Vec<u8>) -> io
 where
     R: io::Read,
 {
+    if typ == CompressionType::None {
+        return data.read_to_end(out).map(drop);
+    }
+
+    // The codec readers are not all restartable after an `Interrupted` read and some of them
+    // take a failing source for the end of the stream, so we first read the (length-bounded)
+    // compressed block and only then decode it from memory.
+    let mut input = Vec::new();
+    data.read_to_end(&mut input)?;
+    let data = input.as_slice();
+
     match typ {
-        CompressionType::None => data.read_to_end(out).map(drop),
+        CompressionType::None => unreachable!(),
         CompressionType::Zlib => zlib_decompress(data, out),
         CompressionType::SnappyPre05 => snappy_pre_05_decompress(data, out),
         CompressionType::Lz4 => lz4_decompress(data, out),
